@@ -2,8 +2,8 @@
    Mechanism level (for ALL expressions / ranges / call sequences): the connection clause ("bit k of the expression,
    counted from its least significant end, is joined to bit k of the port") for identifier, bit-select,
    part-select, constants (one-wire cables) and concatenations, for any port width >= expression width;
-   create_or_update_cable / _port growth and re-basing; assign pin order and top election REFUTED as stated
-   (open findings), with the parts that hold.
+   create_or_update_cable / _port growth and re-basing; assign pin order REFUTED as stated (open finding), with
+   the part that holds; the top clause PROVED (C06_top_clause_holds: in every file order the single root is the top).
    Document level: the reader VerilogParser.parse_verilog is modelled from the document value to the netlist value
    (Fmt/VElab.v elab, tied to the real parser on every run by harness/verilog_doc.py).
      C06_wf       : for ALL documents, whatever elab returns is a well-formed, self-contained netlist value.
@@ -15,7 +15,7 @@
                     connected before under the growth later connections cause (implied cables, ports created or
                     widened on the referenced definition).
      C06_full_top : whole documents: the first module that is not a `celldefine module, if nobody instantiates it,
-                    is the top (otherwise: C06_top_clause_refuted, open finding V06-top-election).
+                    is the top (for a root anywhere in the file: C06_top_clause_holds, on the module list).
      NOT proved - C06_full stays a Definition: the composition over a whole document, i.e. (i) that [visible] (every
      connection made so far shows in the value), a hypothesis of C06_full_instance_nets that the theorem re-establishes,
      holds in every reachable state; (ii) the same frame / stability argument for wire declarations, assigns and
@@ -124,24 +124,31 @@ Theorem C06_assign_clause_refuted : ~ assign_lsb_pins.
 Proof. exact assign_lsb_pins_refuted_lemma. Qed.
 Print Assumptions C06_assign_clause_refuted.
 
-(* top election. The clause "the single root module of the design becomes the top" is REFUTED for the faithful
-   model of parse_module / parse_instantiation (open finding V06-top-election; bundled synth_th1_slaac.v;
-   witness replayed by corpus/verilog/t1-top-election-three-levels.json); it holds when the root comes first. *)
-Theorem C06_top_clause_refuted : ~ top_is_root.
-Proof. exact top_is_root_refuted_lemma. Qed.
-Print Assumptions C06_top_clause_refuted.
+(* top election. The clause "the single root module of the design becomes the top" holds of the model of
+   parse_module / parse_instantiation / elect_top in EVERY file order (elect_top decides at the end of the file; the
+   one-level re-election alone missed the root - former finding V06-top-election, bundled synth_th1_slaac.v). *)
+Theorem C06_top_clause_holds : top_is_root.
+Proof. exact top_is_root_lemma. Qed.
+Print Assumptions C06_top_clause_holds.
 
+(* the former counterexample: file order A, R, M1, M2 with R -> M1 -> M2 -> A. While parsing, M1 is the candidate;
+   the reader returns R (regression case corpus/verilog/t1-top-election-three-levels.json) *)
+Example C06_top_clause_witness :
+  single_root wit_doc 1%nat /\ elect_parsing wit_doc = [2%nat] /\ elect wit_doc = [1%nat].
+Proof. split; [exact wit_single_root|]. split; vm_compute; reflexivity. Qed.
+
+(* the candidate found while parsing: the root when it comes first *)
 Theorem C06_root_first_is_top : forall r insts rest,
   (forall d, In d ((r, false, insts) :: rest) -> snd (fst d) = false -> ~ In r (snd d)) ->
-  forall t, In t (elect ((r, false, insts) :: rest)) -> t = r.
+  forall t, In t (elect_parsing ((r, false, insts) :: rest)) -> t = r.
 Proof. exact root_first_is_top_lemma. Qed.
 Print Assumptions C06_root_first_is_top.
 
 Example C06_root_first_is_top_witness :
   let doc : list dmod := [(1, false, [2; 0]); (0, false, []); (2, false, [0])]%nat in
-  (forall d, In d doc -> snd (fst d) = false -> ~ In 1%nat (snd d)) /\ elect doc = [1%nat].
+  (forall d, In d doc -> snd (fst d) = false -> ~ In 1%nat (snd d)) /\ elect_parsing doc = [1%nat] /\ elect doc = [1%nat].
 Proof.
-  split; [|vm_compute; reflexivity].
+  split; [|split; vm_compute; reflexivity].
   intros d [<-|[<-|[<-|[]]]] _ H; cbn in H; intuition discriminate.
 Qed.
 
@@ -398,12 +405,12 @@ Qed.
 
 (* wire declarations: a net declared for the first time adds exactly one cable - name, range [h:l] (wire k of the
    cable is bit l + k, any base, negative included), net type, attributes - and nothing else; in "wire [h:l] a, b" the
-   range and the attributes go to the FIRST name only (open finding V06-shared-range: the property wants both) *)
+   range goes to EVERY name (former finding V06-shared-range), the attributes to the first name only *)
 Theorem C06_full_wires : forall ty rg attrs names d d', NoDup names ->
   (forall n, In n names -> has_glob n = false /\ find_cable n d = None) -> rg_wf rg ->
   wire_decl ty rg attrs names d = Ok d' ->
   exists n rest, names = n :: rest /\
-    d' = set_cables d (ed_cables d ++ decl_cable ty rg attrs n :: map (decl_cable ty None []) rest).
+    d' = set_cables d (ed_cables d ++ decl_cable ty rg attrs n :: map (decl_cable ty rg []) rest).
 Proof. exact wire_decl_spec. Qed.
 Print Assumptions C06_full_wires.
 
@@ -412,14 +419,14 @@ Example C06_full_wires_witness :
   (forall n, In n [S "t"; S "v"] -> has_glob n = false /\ find_cable n d = None) /\
   exists d', wire_decl TReg (Some (-1, -3)) [(S "keep", None)] [S "t"; S "v"] d = Ok d' /\
     map (fun c => (ec_name c, b_lo (ec_b c), length (b_items (ec_b c)), ec_type c)) (skipn 4 (ed_cables d')) =
-      [(S "t", -3, 3%nat, Some TReg); (S "v", 0, 1%nat, Some TReg)].
+      [(S "t", -3, 3%nat, Some TReg); (S "v", -3, 3%nat, Some TReg)].
 Proof.
   split; [intros n [<-|[<-|[]]]; split; vm_compute; reflexivity|]. eexists. split; vm_compute; reflexivity.
 Qed.
 
 (* the top clause on whole documents: when the first module that is not a `celldefine module is instantiated by no
-   module of the document (itself included), the reader elects it - whatever else the document contains. With the
-   root later in the file the election can fail: C06_top_clause_refuted, open finding V06-top-election. *)
+   module of the document (itself included), the reader elects it - whatever else the document contains (it is the
+   candidate found while parsing, and elect_top keeps it). A root later in the file: C06_top_clause_holds. *)
 Theorem C06_full_top : forall cells m rest n,
   Forall (fun c => vm_cell c = true) cells -> vm_cell m = false ->
   (forall m', In m' (m :: rest) -> vm_cell m' = false -> body_no_inst (vm_name m) (vm_body m')) ->
@@ -436,6 +443,37 @@ Proof.
   - intros m' [<-|[<-|[]]] _; cbn; repeat constructor; cbn; discriminate.
   - destruct (elab ex_doc) as [n|e] eqn:E; [eexists; reflexivity|]. vm_compute in E. discriminate.
 Qed.
+
+(* ANSI headers: a direction, and the range given with it or after it, stays in force for the names that follow
+   until the next direction keyword (former finding V06-ansi-inherit-dir) *)
+Theorem C06_ansi_header_inherits : forall dr rg n rg' n' rest,
+  inherit_header None (HPort (Some dr) rg n :: HPort None rg' n' :: rest) =
+  HPort (Some dr) rg n :: HPort (Some dr) (match rg' with Some _ => rg' | None => rg end) n'
+    :: inherit_header (Some (dr, match rg' with Some _ => rg' | None => rg end)) rest.
+Proof. intros. reflexivity. Qed.
+Print Assumptions C06_ansi_header_inherits.
+
+Theorem C06_plain_header_unchanged : forall names, inherit_header None (map (HPort None None) names) = map (HPort None None) names.
+Proof. induction names as [|n l IH]; cbn; [reflexivity|]. rewrite IH. reflexivity. Qed.
+Print Assumptions C06_plain_header_unchanged.
+
+(* "module m(input [3:0] a, b, output c, [1:0] d, e); endmodule" and a `celldefine module with an empty body
+   (former findings V06-ansi-inherit-dir, V06-cell-empty-body; regression cases d3 / d8 of corpus/verilog) *)
+Example C06_ansi_header_witness :
+  match elab [ {| vm_name := S "m"; vm_cell := false; vm_params := []; vm_attrs := [];
+                  vm_header := [HPort (Some DIn) (Some (3, 0)) (S "a"); HPort None None (S "b"); HPort (Some DOut) None (S "c");
+                                HPort None (Some (1, 0)) (S "d"); HPort None None (S "e")];
+                  vm_body := [] |};
+               {| vm_name := S "c"; vm_cell := true; vm_params := []; vm_attrs := [];
+                  vm_header := [HPort (Some DIn) None (S "i"); HPort None None (S "j")]; vm_body := [] |} ] with
+  | Ok n => nv_top n = Some (S "m") /\
+            map (fun d => map (fun p => (np_label p, np_dir p, np_width p)) (nd_ports d)) (nv_defs n) =
+              [[(LName (S "a"), Some DIn, 4%nat); (LName (S "b"), Some DIn, 4%nat); (LName (S "c"), Some DOut, 1%nat);
+                (LName (S "d"), Some DOut, 2%nat); (LName (S "e"), Some DOut, 2%nat)];
+               [(LName (S "i"), Some DIn, 1%nat); (LName (S "j"), Some DIn, 1%nat)]]
+  | Err _ => False
+  end.
+Proof. vm_compute. split; reflexivity. Qed.
 
 (* The statement at full strength: denote = the meaning of a document (the Coq counterpart of
    harness/verilog_gen.expected), well_typed = the property's input class. *)
